@@ -233,6 +233,9 @@ def notation_format(notation):
 
 STRF_FORMATS = ["%Y-%m-%dT%H:%M:%S%z", "%F %X", "%Y%j", "%s", "%d/%m/%Y",
                 "%H:%M", "%Y-%m-%d", "%j", "%X %z"]
+# directives the library hands to the standard library's strftime
+FALLBACK_STRF = ["%a %d %b %Y", "%A %d %B %Y %H:%M:%S", "%y%m%d",
+                 "%b %d %Y (%a)"]
 
 
 def gen_point_spec(rng, mode, allow_now=True):
@@ -245,6 +248,8 @@ def gen_point_spec(rng, mode, allow_now=True):
         return spec
     if r < 0.16:
         return gen_pfmt_spec(rng, mode, spec)
+    if r < 0.20 and model.BASE[mode] == "gregorian":
+        return gen_ctime_spec(rng, spec)
     notation = gen_notation(rng)
     w = gen_written(rng, mode, notation)
     spec.update(src=rng.choice(["arg"] * 6 + ["stdin", "ref_opt", "ref_env"]),
@@ -263,6 +268,16 @@ def gen_point_spec(rng, mode, allow_now=True):
         spec["pf"] = {"notation": n2, "text": notation_format(n2)}
     elif r < 0.3:
         spec["pf"] = {"strf": rng.choice(STRF_FORMATS)}
+    elif r < 0.36 and model.BASE[mode] == "gregorian" and (
+            1100 <= w["y"] <= 9900):
+        spec["pf"] = {"strf": rng.choice(FALLBACK_STRF), "fallback": True}
+        if w["rep"] == "week" and rng.random() < 0.6:
+            # week dates whose week-year is not their calendar year
+            w["w"] = rng.choice([1, model.weeks_in_year(mode, w["y"])])
+            w["wd"] = rng.choice([1, 6, 7]) if "wd" in w else 1
+            if notation["date"].startswith("yw"):
+                w["wd"] = 1
+            spec["text"] = written_text(notation, w)
     return spec
 
 
@@ -273,6 +288,30 @@ PARSE_FORMATS = [("%d/%m/%Y %H:%M:%S", "hms", False),
                  ("%Y%m%dT%H%M%S%z", "hms", True),
                  ("%H:%M %d.%m.%Y", "hm", False),
                  ("%Y/%j %H", "h", False)]
+
+
+def gen_ctime_spec(rng, spec):
+    """The documented non-ISO input: C ctime text, printed back as ctime
+    (gregorian only: it goes through the standard library's strptime; the
+    point is in UTC whatever the local zone)."""
+    n = {"date": "cal_ext", "ystyle": "ccyy", "time": "hms", "dec": ",",
+         "zone": None}
+    w = gen_written(rng, "gregorian", n, p_invalid=0)
+    # (how the C library prints years below 1000 or what it does beyond 9999
+    # is not the property's business: keep the shifted result inside)
+    w["y"] = rng.choice([1100, 1600, 1900, 1970, 1999, 2000, 2024, 2038,
+                         9900, rng.randint(1100, 9900)])
+    w["d"] = min(w["d"], model.days_in_month("gregorian", w["m"], w["y"]))
+    if w["H"] == 24:
+        w["H"] = 0
+    w["off"] = 0
+    dn = model.to_daynum("gregorian", w["y"], w["m"], w["d"])
+    f = dict(w, wd=model.weekday("gregorian", dn))
+    spec.update(src="arg", notation=n, written=w, text=cm.render_ctime(f),
+                ctime=True)
+    spec["offsets"] = [gen_offset(rng, "hms", False) for _ in range(
+        rng.choice([0, 1, 1, 2]))]
+    return spec
 
 
 def gen_pfmt_spec(rng, mode, spec):
@@ -779,6 +818,12 @@ class Sim(object):
                     outs.add(text if text is not None else "REFUSE")
             return outs
         n, w = spec["notation"], spec["written"]
+        if spec.get("ctime"):
+            if model.BASE[mode] != "gregorian" or pf is not None:
+                return None
+            t_us = cm.written_instant_us(w, mode, 0)
+            text = cm.render_ctime(cm.civil_fields(mode, t_us + total, 0))
+            return {text if text is not None else "REFUSE"}
         if not cm.written_valid(w, mode):
             return {"REFUSE"}
         if w["off"] is None:
@@ -813,6 +858,10 @@ class Sim(object):
                     f24.update(H=24, M=0, S=0, us=0)
                     alt = cm.render_strf(strf, f24, out_off, t_us)
                     outs.add(alt if alt is not None else "REFUSE")
+                    if (pf or {}).get("fallback"):
+                        # the standard library has no hour 24: an
+                        # un-normalised end-of-day point may be refused
+                        outs.add("REFUSE")
                 continue
             if pf is None:
                 out_n = n
@@ -1028,8 +1077,9 @@ class Sim(object):
                     got=[status[:200], out], want_any_of=sorted(want),
                     neg_year_item=bool(spec.get("neg_year_item")))
                 return
-        if spec["src"] in ("now", "noarg", "ref_none"):
-            return
+        if spec["src"] in ("now", "noarg", "ref_none") or spec.get(
+                "ctime") or (spec.get("pf") or {}).get("fallback"):
+            return      # the direct composition has no strftime fallback
         # differential: the library composed directly
         try:
             with kernel.guarded():
